@@ -24,6 +24,8 @@ pub fn stub_stop_process(_this: &mut PtraceDumper, _timeout: std::time::Duration
     Ok(())
 }
 pub fn stub_fill_auxv<W: WriteErrorList<AuxvError>>(_this: &mut AuxvDumpInfo, _pid: Pid, _soft_errors: W) -> Result<(), AuxvError> {
+    // the (empty) sub-list is forgotten, not dropped: dropping an empty Vec trips the garbage-capacity artefact (DESIGN 0.5)
+    core::mem::forget(_soft_errors);
     unsafe {
         STEP_CALLS[1] += 1;
         if STEP_FAILS[1] {
@@ -33,6 +35,7 @@ pub fn stub_fill_auxv<W: WriteErrorList<AuxvError>>(_this: &mut AuxvDumpInfo, _p
     Ok(())
 }
 pub fn stub_enumerate_threads<W: WriteErrorList<InitError>>(_this: &mut PtraceDumper, _soft_errors: W) -> Result<(), InitError> {
+    core::mem::forget(_soft_errors);
     unsafe {
         STEP_CALLS[2] += 1;
         if STEP_FAILS[2] {
